@@ -37,8 +37,17 @@ A_TRAIN = [0.5, 1.25, 2.0, 3.5, 4.75, 6.0, 7.5]
 B_TRAIN = [1.0, 7.0, 2.5, 5.5, 0.25, 3.0, 6.5]
 
 
-def follow_frame(a_rows, b_rows):
-    return pandas.DataFrame({"A": pandas.Categorical(a_rows, categories=mc.A_LEVELS), "B": pandas.Categorical(b_rows, categories=mc.B_LEVELS)})
+def follow_frame(a_rows, b_rows, cat_mode="full"):
+    """cat_mode: how the follow-up frame declares its categorical dtype (the recorded levels must win in every case)."""
+    if cat_mode == "full":
+        return pandas.DataFrame({"A": pandas.Categorical(a_rows, categories=mc.A_LEVELS), "B": pandas.Categorical(b_rows, categories=mc.B_LEVELS)})
+    if cat_mode == "inferred":  # only the observed levels are declared
+        return pandas.DataFrame({"A": pandas.Categorical(a_rows), "B": pandas.Categorical(b_rows)})
+    if cat_mode == "reversed":  # all levels, declared in another order
+        return pandas.DataFrame({"A": pandas.Categorical(a_rows, categories=mc.A_LEVELS[::-1]), "B": pandas.Categorical(b_rows, categories=mc.B_LEVELS[::-1])})
+    if cat_mode == "object":
+        return pandas.DataFrame({"A": pandas.Series(list(a_rows), dtype=object), "B": pandas.Series(list(b_rows), dtype=object)})
+    raise ValueError(cat_mode)
 
 
 def run(check: Check) -> None:
@@ -170,19 +179,27 @@ def _concrete(check: Check, formula, tmo, thorough, record):
                 ctx2 = {"a": as_sym_array([y[0], y[2]]), "b": as_sym_array([y[1], y[3]])}
                 with symbolic_pipeline():
                     two = spec0.get_model_matrix(follow_frame([A0, A1], [B0, B1]), context=ctx2)
+                    two_inferred = spec0.get_model_matrix(follow_frame([A0, A1], [B0, B1], "inferred"), context=ctx2)
+                    two_reversed = spec0.get_model_matrix(follow_frame([A0, A1], [B0, B1], "reversed"), context=ctx2)
                     swapped = spec0.get_model_matrix(follow_frame([A1, A0], [B1, B0]), context={"a": as_sym_array([y[2], y[0]]), "b": as_sym_array([y[3], y[1]])})
                     one = spec0.get_model_matrix(follow_frame([A0], [B0]), context={"a": as_sym_array([y[0]]), "b": as_sym_array([y[1]])})
                     dup = spec0.get_model_matrix(follow_frame([A0, A0], [B0, B0]), context={"a": as_sym_array([y[0], y[0]]), "b": as_sym_array([y[1], y[1]])})
                     restored = pickle.loads(blob)
                     two_p = restored.get_model_matrix(follow_frame([A0, A1], [B0, B1]), context=ctx2)
-                return two, swapped, one, dup, two_p
+                return two, swapped, one, dup, two_p, two_inferred, two_reversed
 
             def pre():
                 ys = [z3.Real(f"y{i}") for i in range(4)]
                 return [z3.And(v >= -2, v <= 12) for v in ys]
 
             def claims(res):
-                two, swapped, one, dup, two_p = res
+                two, swapped, one, dup, two_p, two_inferred, two_reversed = res
+                for nm, alt in (("inferred", two_inferred), ("reversed", two_reversed)):
+                    la, ca = mc.matrix_cells(alt, "pandas")
+                    l2_, c2_ = mc.matrix_cells(two, "pandas")
+                    yield f"follow-up frame declaring {nm} categories: same names", la == l2_
+                    if ca.shape == c2_.shape:
+                        yield f"follow-up frame declaring {nm} categories: same cells (the recorded levels decide)", conj([same_cell(ca[i, j], c2_[i, j]) for i in range(ca.shape[0]) for j in range(ca.shape[1])])
                 ms = [mc.matrix_cells(m, "pandas") for m in (two, swapped, one, dup, two_p)]
                 yield "names identical and ordered in every follow-up", all(l == labels0 for l, _ in ms)
                 k = len(labels0)
@@ -201,29 +218,33 @@ def _concrete(check: Check, formula, tmo, thorough, record):
                 bad = replays.run(p)
                 return ("spec-follow-up", bad, p) if bad else None
 
-            rig.run_sym(check, "pipeline.concrete_training", fn, claims, pre=pre(), expect_exception=ok_exc, replay=rep, timeout_ms=tmo,
+            rig.run_sym(check, "pipeline.concrete_training", fn, claims, pre=pre(), replay=rep, timeout_ms=tmo,
+                        on_exception=lambda e, pc: ([] if ok_exc(e) else [(f"follow-up raised {type(e).__name__}: {str(e)[:80]}", False)]),
                         case_id=f"C:{formula}:{A0}{B0}{A1}{B1}", max_paths=400, record=record,
                         sample={"formula": formula, "training": "concrete 7 rows", "follow_up": f"2 symbolic rows with categories {(A0, B0)}, {(A1, B1)}"})
 
-        # levels absent from the follow-up frame still produce their all-zero columns (symbolic numeric values)
-        def fn_abs():
-            y = sym_vector("y", 4)
-            with symbolic_pipeline():
-                return spec0.get_model_matrix(follow_frame(["x", "x"], ["u", "u"]), context={"a": as_sym_array([y[0], y[2]]), "b": as_sym_array([y[1], y[3]])})
+        # levels absent from the follow-up frame still produce their all-zero columns (symbolic numeric values),
+        # however the follow-up frame declares its categorical dtype
+        for cat_mode in ("full", "inferred", "reversed", "object"):
+            def fn_abs(cat_mode=cat_mode):
+                y = sym_vector("y", 4)
+                with symbolic_pipeline():
+                    return spec0.get_model_matrix(follow_frame(["x", "x"], ["u", "u"], cat_mode), context={"a": as_sym_array([y[0], y[2]]), "b": as_sym_array([y[1], y[3]])})
 
-        def claims_abs(m):
-            l, c = mc.matrix_cells(m, "pandas")
-            yield "lost levels: same names in the same order", l == labels0
-            zeros = []
-            for j, lab in enumerate(l):
-                if any(tok in lab for tok in ("[T.y]", "[T.z]", "[y]", "[z]", "[T.v]", "[v]")) and "contr." not in lab:
-                    zeros += [same_cell(c[i, j], 0) for i in range(2)]
-            yield "lost levels: their columns are all zero", conj(zeros)
+            def claims_abs(m, cat_mode=cat_mode):
+                l, c = mc.matrix_cells(m, "pandas")
+                yield "lost levels: same names in the same order", l == labels0
+                zeros = []
+                for j, lab in enumerate(l):
+                    if any(tok in lab for tok in ("[T.y]", "[T.z]", "[y]", "[z]", "[T.v]", "[v]")) and "contr." not in lab:
+                        zeros += [same_cell(c[i, j], 0) for i in range(2)]
+                yield "lost levels: their columns are all zero", conj(zeros)
 
-        rig.run_sym(check, "pipeline.lost_levels", fn_abs, claims_abs, pre=[z3.And(z3.Real(f"y{i}") >= 0, z3.Real(f"y{i}") <= 8) for i in range(4)],
-                    expect_exception=lambda e: "extend beyond" in str(e), timeout_ms=tmo, case_id=f"L:{formula}", max_paths=400, record=False,
-                    replay=lambda model, label, formula=formula: (lambda p: (("spec-lost-levels", replays.run(p), p) if replays.run(p) else None))(
-                        {"kind": "c04_follow", "formula": formula, "cats": [["x", "u"], ["x", "u"]], "y": [model_value(model, z3.Real(f"y{i}")) for i in range(4)], "lost": True}))
+            rig.run_sym(check, "pipeline.lost_levels", fn_abs, claims_abs, pre=[z3.And(z3.Real(f"y{i}") >= 0, z3.Real(f"y{i}") <= 8) for i in range(4)],
+                        expect_exception=lambda e: "extend beyond" in str(e), timeout_ms=tmo, case_id=f"L:{formula}:{cat_mode}", max_paths=400, record=False,
+                        replay=lambda model, label, formula=formula: (lambda p: (("spec-lost-levels", replays.run(p), p) if replays.run(p) else None))(
+                            {"kind": "c04_follow", "formula": formula, "cats": [["x", "u"], ["x", "u"]], "y": [model_value(model, z3.Real(f"y{i}")) if model is not None else 1.5 + i for i in range(4)], "lost": True, "cat_mode": cat_mode}),
+                        on_exception=lambda e, pc: ([] if "extend beyond" in str(e) else [(f"follow-up frame with cat_mode raised {type(e).__name__}", False)]))
 
 
 
